@@ -12,7 +12,7 @@ pub fn prop() -> Prop {
     Prop {
         id: "C08",
         level: "exploration",
-        rule: "(1) all token strings of length <= 3 over the full vocabulary (keywords, operators, delimiters, identifier spellings that embed/prefix/suffix keywords, numbers, strings) rendered with every per-gap separator choice from {nothing where maximal munch allows, space, newline, line comment}: the token stream must be the concatenation of the tokens of the pieces, every piece one token spanning exactly its text, keywords not identifiers, lexeme kept; (2) all strings of length <= 3 over {a, é, _, 1, 0, .} against a reference maximal-munch lexer; (3) all string contents of length <= 4 over 8 characters encoded with the documented escapes: the parsed String node must equal the content; all raw literal bodies of length <= 4 over {a, quote, backslash, n} followed by more input: the literal ends at the first unescaped quote and decodes as the reference decoder says; (3d) character sweep: every printable ASCII character, tab / newline / carriage return and 24 Unicode representatives (letters of several scripts and widths, digits, white space, combining mark, format characters, symbols), singly and in every ordered pair, inside / at the start / at the end of a word, raw and after a backslash in a string literal, inside / at the end of a comment, and between tokens (illegal characters must be refused); (3c) token-length ladder: one identifier / digit run / fraction / string literal / comment / white-space run of every length around each power of two up to 1025 (8193 thorough), with one escape or wide character at every position near a multiple of 8 and at both ends; (4) nothing is dropped: a text with an illegal character, an unterminated string or a lone & or | is rejected by parse, and between consecutive token spans only white space and comments occur. Non-trivial = more than one token or a literal with an escape; distinct = distinct texts",
+        rule: "(1) all token strings of length <= 3 over the full vocabulary (keywords, operators, delimiters, identifier spellings that embed/prefix/suffix keywords, numbers, strings) rendered with every per-gap separator choice from {nothing where maximal munch allows, space, newline, line comment}: the token stream must be the concatenation of the tokens of the pieces, every piece one token spanning exactly its text, keywords not identifiers, lexeme kept; (2) all strings of length <= 3 over {a, é, _, 1, 0, .} against a reference maximal-munch lexer; (3) all string contents of length <= 4 over 8 characters encoded with the documented escapes: the parsed String node must equal the content; all raw literal bodies of length <= 4 over {a, quote, backslash, n} followed by more input: the literal ends at the first unescaped quote and decodes as the reference decoder says; (3d) character sweep: every printable ASCII character, tab / newline / carriage return and 24 Unicode representatives (letters of several scripts and widths, digits, white space, combining mark, format characters, symbols), singly and in every ordered pair, inside / at the start / at the end of a word, raw and after a backslash in a string literal, inside / at the end of a comment, and between tokens (illegal characters must be refused); (3e) runs of 1..6 backslashes followed by a quote, the end of the literal or more text, starting at every offset 0..40 (escaped and raw forms), and pairs of special characters adjacent or one apart at every position of literals up to 130 characters; (3c) token-length ladder: one identifier / digit run / fraction / string literal / comment / white-space run of every length around each power of two up to 1025 (8193 thorough), with one escape or wide character at every position near a multiple of 8 and at both ends; (4) nothing is dropped: a text with an illegal character, an unterminated string or a lone & or | is rejected by parse, and between consecutive token spans only white space and comments occur. Non-trivial = more than one token or a literal with an escape; distinct = distinct texts",
         assumptions: &[
             "token kinds are compared through their Debug rendering, learnt from single-token inputs (no kind name is hard-coded); the documented token shapes are those of printer::may_touch and the reference lexer in this file",
         ],
@@ -315,6 +315,22 @@ fn length_ladder(sh: &mut Shard) {
                 one(sh, escape_string(&content), Ok(vec![Stmt::Expr(Expr::String { value: content.clone() })]), "string literal with one special character");
             }
         }
+        // TWO special characters, adjacent or one apart, at every position (short and word-aligned lengths)
+        if len <= 40 || len % 8 <= 1 || len % 8 == 7 {
+            if len <= 130 {
+                for p in 0..len.saturating_sub(1) {
+                    for gap in [1usize, 2] {
+                        if p + gap >= len {
+                            continue;
+                        }
+                        for (s1, s2) in [('\\', '"'), ('"', '\\'), ('\\', '\\'), ('"', '"'), ('\\', 'é'), ('é', '\\'), ('\\', 'n'), ('\n', '"')] {
+                            let content: String = plain.chars().enumerate().map(|(i, c)| if i == p { s1 } else if i == p + gap { s2 } else { c }).collect();
+                            one(sh, escape_string(&content), Ok(vec![Stmt::Expr(Expr::String { value: content.clone() })]), "string literal with two special characters");
+                        }
+                    }
+                }
+            }
+        }
         // comments and white space of that length around a token
         for wide_at in [None, Some(len / 2), Some(len.saturating_sub(1))] {
             let c: String = plain.chars().enumerate().map(|(i, ch)| if Some(i) == wide_at { '€' } else { ch }).collect();
@@ -432,9 +448,64 @@ fn char_sweep(sh: &mut Shard) {
     }
 }
 
+/// Runs of k backslashes (content) followed by a quote (content) or by the closing quote, starting at every
+/// offset 0..40 of the literal: written with the documented escapes the literal has 2k backslashes in a row;
+/// also the raw forms (k backslashes then the quote) against the reference decoder.
+fn backslash_runs(sh: &mut Shard) {
+    for offset in 0..=40usize {
+        for k in 1..=6usize {
+            for tail in ["", "\"", "x", "\"x\"", "é"] {
+                if !sh.mine() {
+                    continue;
+                }
+                let content = format!("{}{}{}", "a".repeat(offset), "\\".repeat(k), tail);
+                let text = escape_string(&content);
+                let t = text.clone();
+                sh.begin(&|| t.clone());
+                sh.count("family:backslash-runs");
+                sh.nontrivial(&text);
+                match parse_guarded(&text) {
+                    Parsed::Ok(ast) if string_node(&ast) == Some(&content) && ast.len() == 1 => {}
+                    Parsed::Ok(ast) => fail(sh, "backslash-runs", &text, format!("the literal denotes {:?} (statements: {}), written content {content:?}", string_node(&ast), ast.len())),
+                    Parsed::Err(e) => fail(sh, "backslash-runs", &text, format!("rejected: {e}")),
+                    Parsed::Panic(p) => fail(sh, "backslash-runs", &text, format!("panic: {p}")),
+                }
+                // raw: k backslashes directly before a quote, followed by more text and a closing quote
+                let raw = format!("{}{}\"b\" 7", "a".repeat(offset), "\\".repeat(k));
+                let text = format!("\"{raw}");
+                if let Some((decoded, used)) = reference_string(&raw) {
+                    // the literal must end where the reference decoder says, and denote what it says
+                    match (toks(&text), parse_guarded(&text)) {
+                        (Ok(got), Parsed::Ok(ast)) => {
+                            let span_ok = got.first().map(|g| g.1 == 0 && g.2 == used + 1).unwrap_or(false);
+                            let lit = match ast.first() {
+                                Some(Stmt::Expr(Expr::String { value })) => Some(value.clone()),
+                                _ => None,
+                            };
+                            if !span_ok || lit.as_ref() != Some(&decoded) {
+                                fail(sh, "backslash-runs", &text, format!("first token {:?}, literal {lit:?}; the reference decoder ends the literal after {} bytes with content {decoded:?}", got.first(), used + 1));
+                            }
+                        }
+                        (Err(p), _) => fail(sh, "backslash-runs", &text, format!("lexer panicked: {p}")),
+                        (_, Parsed::Panic(p)) => fail(sh, "backslash-runs", &text, format!("panic: {p}")),
+                        (Ok(got), Parsed::Err(e)) => {
+                            // the rest of the text may not be a program; the literal's own span must still be right
+                            let span_ok = got.first().map(|g| g.1 == 0 && g.2 == used + 1).unwrap_or(false);
+                            if !span_ok {
+                                fail(sh, "backslash-runs", &text, format!("first token {:?} ({e}); the reference decoder ends the literal after {} bytes", got.first(), used + 1));
+                            }
+                        }
+                    }
+                }
+            }
+        }
+    }
+}
+
 fn run(sh: &mut Shard) {
     let tier = sh.cfg.tier;
     length_ladder(sh);
+    backslash_runs(sh);
     char_sweep(sh);
     let vocab = vocabulary();
     // anchors
@@ -732,7 +803,7 @@ fn replay(sh: &mut Shard, case: &Value) {
 }
 
 fn vacuity(m: &Merged) -> Option<String> {
-    for fam in ["sequences", "words", "length-ladder", "char-sweep", "string-contents", "raw-bodies", "illegal", "spans"] {
+    for fam in ["sequences", "words", "length-ladder", "backslash-runs", "char-sweep", "string-contents", "raw-bodies", "illegal", "spans"] {
         if m.counters.get(&format!("family:{fam}")).copied().unwrap_or(0) == 0 {
             return Some(format!("family {fam} produced no case"));
         }
